@@ -59,6 +59,8 @@ ASSUMPTIONS = [
     "the reference residual is float64(data) - float64(prediction) at float64 eps for every data dtype; only when an operand the code "
     "received is itself a narrow float (KNeighbors predicts float32 for float32 data) float32 eps applies, counted as either_way",
     "a raise is counted and noted, not judged (normal returns only)",
+    "arguments a caller leaves out are bound to the documented default (weights=None); constructor defaults are judged by comparing "
+    "objects built without optional arguments with objects built with the documented defaults spelled out",
     "the reference of the refit relation is an unfitted clone taken before the object's first fit (renewed only after a set_params between "
     "fits), never a clone of the fitted object; constructor parameters (get_params, nested) are compared before/after every root fit/filter",
     "block counts are judged only when no point lies within 1e-9 of a cell edge and the cell count is not a rounding tie (either-way otherwise)",
@@ -89,7 +91,11 @@ FLOORS = {
               "chain_predict:sum_of_duck_typed_and_other_steps": 200,
               # large counts (> 50 000 / 100 000 / 131 072 points, not a multiple of 50 000) through filter, Chain.fit/filter, Vector.filter
               "filter_points:gt50000": 10, "filter_points:gt100000": 7, "filter_points:gt131072": 3, "filter_points:large_not_multiple_of_50000": 10,
-              "chain_fit_points:gt50000": 3, "chain_fit_points:gt131072": 1, "chain_predict_points:gt50000": 3, "vector_fit_points:gt50000": 1},
+              "chain_fit_points:gt50000": 3, "chain_fit_points:gt131072": 1, "chain_predict_points:gt50000": 3, "vector_fit_points:gt50000": 1,
+              # documented defaults and weights threaded past weight-ignoring steps / live at reductions
+              "eval:defaults_equal_documented": 25, "defaulted_argument:Chain.fit.weights": 170, "defaulted_argument:BaseGridder.filter.weights": 160,
+              "weights_threaded_past_weight_ignoring_step:into_weight_using_step": 45, "weights_live_at_reduction:BlockReduce": 50,
+              "weights_live_at_reduction:BlockMean": 55},
     "thorough": {"eval:filter": 18500, "eval:chain_fit_order": 9000, "eval:chain_threading": 9000, "eval:conservation_events": 9000,
                  "eval:conservation_predict": 8800, "eval:chain_predict_sum": 23000, "eval:vector_routing": 3900,
                  "eval:vector_vs_separate": 15500, "eval:vector_predict": 11500, "eval:refit_equals_fresh": 1650,
@@ -107,7 +113,10 @@ FLOORS = {
                  "duck_step:class:LevelStep": 1400, "duck_step:class:WarpedGridder": 1900, "duck_step:class:ThinStep": 600,
                  "chain_predict:sum_of_duck_typed_and_other_steps": 4000,
                  "filter_points:gt50000": 85, "filter_points:gt100000": 30, "filter_points:gt131072": 12, "filter_points:large_not_multiple_of_50000": 85,
-                 "chain_fit_points:gt50000": 28, "chain_fit_points:gt131072": 4, "chain_predict_points:gt50000": 28, "vector_fit_points:gt50000": 9},
+                 "chain_fit_points:gt50000": 28, "chain_fit_points:gt131072": 4, "chain_predict_points:gt50000": 28, "vector_fit_points:gt50000": 9,
+                 "eval:defaults_equal_documented": 330, "defaulted_argument:Chain.fit.weights": 2500, "defaulted_argument:BaseGridder.filter.weights": 2400,
+                 "weights_threaded_past_weight_ignoring_step:into_weight_using_step": 700, "weights_live_at_reduction:BlockReduce": 700,
+                 "weights_live_at_reduction:BlockMean": 800},
 }
 JOBS = {"quick": 1, "thorough": 8}
 CASE_TIMEOUT_S = 300
@@ -119,8 +128,8 @@ TINY = float(np.finfo("float64").tiny)
 
 def plan(tier):
     if tier == "quick":
-        return collections.OrderedDict(large=3, scalar_chain=32, vector=14, vector_chain=12, refit=10, filter=7)
-    return collections.OrderedDict(ambient=4, large=24, scalar_chain=560, vector=240, vector_chain=220, refit=160, filter=100)
+        return collections.OrderedDict(large=3, defaults=3, scalar_chain=32, vector=14, vector_chain=12, refit=10, filter=7)
+    return collections.OrderedDict(ambient=4, large=24, defaults=40, scalar_chain=560, vector=240, vector_chain=220, refit=160, filter=100)
 
 
 # ----------------------------------------------------------------------
@@ -422,9 +431,10 @@ def install(tap, run):
     # -- filter of a gridder ------------------------------------------------
     def prediction_of(ev, obj, coords):
         """The prediction the filter/step used: its own predict child (after its last fit) at these coordinates."""
-        fit_pos = [i for i, k in enumerate(ev.children) if k.obj is obj and k.name.endswith(".fit")]
-        preds = [k for i, k in enumerate(ev.children)
-                 if k.obj is obj and k.name.endswith(".predict") and k.exc is None and (not fit_pos or i > fit_pos[-1])]
+        # descendants, not children: a filter may delegate to super().filter (the own fit / predict are then one level deeper)
+        inner = [k for k in ev.descendants() if k.obj is obj]
+        fit_seq = [k.seq for k in inner if k.name.endswith(".fit")]
+        preds = [k for k in inner if k.name.endswith(".predict") and k.exc is None and (not fit_seq or k.seq > max(fit_seq))]
         if len(preds) == 1 and _same(preds[0].args.get("coordinates"), coords):
             return preds[0].result, "event"
         run.count("filter:prediction_recomputed")
@@ -438,7 +448,7 @@ def install(tap, run):
         coords, data, weights = entry(ev)
         check_params(ev, "filter")
         problems = []
-        fits = [k for k in ev.children if k.obj is obj and k.name.endswith(".fit")]
+        fits = [k for k in ev.descendants() if k.obj is obj and k.name.endswith(".fit")]  # a filter may delegate to super().filter
         if not hasattr(obj, "fit"):
             run.count("filter:step_without_fit_method")  # duck-typed filter+predict step: only its outputs are judged
         elif not fits:
@@ -707,6 +717,18 @@ def install(tap, run):
                                      % (k, describe(steps[k]), name, _shapes(g), src, _shapes(e))))
             if k > 0 and isinstance(steps[k - 1], BlockReduce):
                 run.count("thread_after:%s:weights_%s" % (type(steps[k - 1]).__name__, "none" if got[2] is None else "given"))
+                if entry(filt[k - 1])[2] is not None:
+                    run.count("weights_live_at_reduction:%s" % type(steps[k - 1]).__name__)
+            if k > 0 and predicts(steps[k - 1]):
+                # through a predicting step the weights travel unchanged, whether or not that step uses them (KNeighbors, Linear, level step)
+                before = entry(filt[k - 1])[2]
+                if not _same(got[2], before):
+                    problems.append(("chain:thread:weights_through_step", "step %d (%s) received weights %s, but the preceding predicting step %s was given %s"
+                                     % (k, describe(steps[k]), _shapes(got[2]), describe(steps[k - 1]), _shapes(before))))
+                if before is not None and type(steps[k - 1]).__name__ in ("KNeighbors", "Linear", "Cubic", "LevelStep"):
+                    run.count("weights_threaded_past_weight_ignoring_step")
+                    if type(steps[k]).__name__ in ("Trend", "Spline", "BlockMean", "BlockReduce"):
+                        run.count("weights_threaded_past_weight_ignoring_step:into_weight_using_step")
         run.evaluated("chain_threading")
         if problems:
             witness["flow"] = flow_of(filt)
@@ -723,7 +745,7 @@ def install(tap, run):
             d_t, r_t = _tup(d_in), _tup(resid)
             preds = []
             for k in seg:
-                own = [c for c in k.children if c.obj is k.obj and c.name.endswith(".predict") and c.exc is None]
+                own = [c for c in k.descendants() if c.obj is k.obj and c.name.endswith(".predict") and c.exc is None]
                 if not own:
                     preds = None
                     break
@@ -1016,10 +1038,11 @@ def install(tap, run):
             post_vector_predict(ev)
 
     tap.keep_tree = False
-    tap.method(BaseGridder, "fit", pre=pre_snapshot, post=post_fit, subclasses=True)
+    # documented defaults (docstrings of fit / filter: ``weights=None``): a caller that leaves weights out is judged by THAT value
+    tap.method(BaseGridder, "fit", pre=pre_snapshot, post=post_fit, subclasses=True, documented={"weights": None})
     tap.method(BaseGridder, "predict", post=post_predict, subclasses=True)
-    tap.method(BaseGridder, "filter", pre=pre_snapshot, post=post_filter, subclasses=True)
-    tap.method(BlockReduce, "filter", pre=pre_snapshot, post=post_filter, subclasses=True)
+    tap.method(BaseGridder, "filter", pre=pre_snapshot, post=post_filter, subclasses=True, documented={"weights": None})
+    tap.method(BlockReduce, "filter", pre=pre_snapshot, post=post_filter, subclasses=True, documented={"weights": None})
     # the harness's own duck-typed steps (not BaseGridder): same recording, same oracles
     tap.method(work.LevelStep, "filter", pre=pre_snapshot, post=post_filter)
     tap.method(work.LevelStep, "predict", post=post_predict)
